@@ -119,6 +119,7 @@ def run(R):
     r18(R)
     r19(R)
     r20(R)
+    r21(R)
     r14(R)
     r15(R)
 
@@ -593,7 +594,7 @@ def r8(R):
         effects = [x for x in effects if x.name() not in ("query_graph", "next", "into_iter", "bound_scan_keys")]
         R.ob("C01-R8", "effects:%s" % b.short, "%s emits through a call inside the filtered loop (found %s)" % (b.short, sorted({x.name() for x in effects})),
              len(effects) >= 1, where=b.where(c.ln))
-        cuts = _len_guard_cut_edges(b)
+        cuts = _len_guard_cut_edges(b) | _optional_set_cuts(prog, b)
         multi_edges = {(bb, tgt) for bb, tgt, kind in cuts if kind == "maybe-multi"}
         single_sw = {bb for bb, tgt, kind in cuts if kind == "single"}
         for x in effects:
@@ -631,6 +632,69 @@ def r8(R):
                     flds |= {e["n"] for e in oo[1]["p"] if e["k"] == "field"}
         R.ob("C01-R8", "key:%s" % b.short, "the seen-key of %s is the whole triple (fields %s)" % (b.short, sorted(flds)),
              {"subject", "predicate", "object"} <= flds, where=b.where(c.ln))
+
+
+def _is_multi_bool(y, op):
+    """the operand is the value of `<collection>.len() > 1` (or an equivalent spelling)"""
+    o = y.origin(op, stop_named=False)
+    if o[0] != "rv" or o[1]["rv"] != "binop":
+        return False
+    rv = o[1]
+
+    def is_len(x):
+        oo = y.origin(x, stop_named=False)
+        return oo[0] == "call" and oo[1].name() == "len"
+    ca, cb = F.const_int(rv["a"]), F.const_int(rv["b"])
+    if is_len(rv["a"]) and cb is not None:
+        # its negation must imply `at most one`: !(len > c) is len <= c
+        return (rv["op"] == "Gt" and cb <= 1) or (rv["op"] == "Ge" and cb <= 2)
+    if is_len(rv["b"]) and ca is not None:
+        return (rv["op"] == "Lt" and ca <= 1) or (rv["op"] == "Le" and ca <= 2)
+    return False
+
+
+def _optional_set_cuts(prog, b):
+    """an optional seen-set built as `(sources.len() > 1).then(HashSet::new)` (here or in every caller): its None edge is taken only with at most
+    one source, so a bypass of the seen-test over that edge is harmless"""
+    cuts = set()
+    for bb, t in b.terms():
+        if t["t"] != "switch":
+            continue
+        ecs = [(tgt, cd) for tgt, cd in G.edge_conditions(b, bb) if cd.get("kind") == "variant" and (cd.get("adt") or "").endswith("Option") and cd.get("pl")]
+        if not ecs:
+            continue
+        pl = ecs[0][1]["pl"]
+        if "HashSet" not in b.local_ty(pl["l"]):
+            continue
+        work, ok, seen = [(b, {"k": "copy", "pl": pl})], True, set()
+        n = 0
+        while work and ok:
+            x, op = work.pop()
+            cr = _creation_of(x, op)
+            if cr is None:
+                ok = False
+            elif cr[0] == "created":
+                th = [c for c in x.calls() if c.bb == cr[1]]
+                ok = bool(th) and th[0].name() in ("then", "then_some") and bool(th[0].args) and _is_multi_bool(x, th[0].args[0])
+                n += 1
+            elif cr[0] == "param":
+                callers = [(y, cc) for y in prog.bodies.values() if y.crate == "kolibrie" and "::tests::" not in y.key for cc in y.calls() if cc.key == x.key]
+                if not callers:
+                    ok = False
+                for y, cc in callers:
+                    if (y.key, cc.bb) in seen or cr[1] - 1 >= len(cc.args):
+                        continue
+                    seen.add((y.key, cc.bb))
+                    work.append((y, cc.args[cr[1] - 1]))
+            else:
+                ok = False
+        if ok and n:
+            for tgt, cd in ecs:
+                if cd.get("variant") == "None":
+                    cuts.add((bb, tgt, "single"))
+                elif cd.get("variant") == "Some":
+                    cuts.add((bb, tgt, "maybe-multi"))
+    return cuts
 
 
 def _bypass_only_single(b, h, blocks, ins_bb, eff_bb, cuts):
@@ -1532,3 +1596,112 @@ def r15(R):
         if terms and all(t[0] == "call" and len(t) > 3 and t[3].startswith("kolibrie::") for t in terms):
             okc = True
     R.ob("C01-R15", "whole-result", "finalize_select receives the complete (decoded) result of the executor", okc, where=es.where(calls[0].ln if calls else None))
+
+
+_PASS_THROUGH = {"as_deref_mut", "as_mut", "as_deref", "as_ref", "unwrap", "expect", "deref_mut", "deref", "borrow_mut", "branch", "unwrap_unchecked",
+                 "reborrow", "by_ref"}
+_CREATORS = {"new", "default", "with_capacity", "with_hasher", "with_capacity_and_hasher", "then", "then_some", "then_with", "from_iter", "collect"}
+
+
+def _creation_of(b, op, depth=0):
+    """where the collection an operand refers to was created: ('created', bb) | ('param', index) | None"""
+    pl = F.op_place(op)
+    if pl is None or depth > 12:
+        return None
+    l = pl["l"]
+    for _ in range(30):
+        if 1 <= l <= b.nargs and not b.is_closure:
+            return ("param", l)
+        ds = [d for d in b.defs().get(l, []) if d[0] in ("assign", "call")]
+        if len(ds) != 1:
+            # multi-definition (`seen = HashSet::new()` again in a loop): every definition is a creation
+            cr = [d for d in ds if d[0] == "call" and d[2].name() in _CREATORS]
+            if cr and len(cr) == len(ds):
+                return ("created-multi", [d[1] for d in cr])
+            return None
+        d = ds[0]
+        if d[0] == "call":
+            c = d[2]
+            if c.name() in _CREATORS:
+                return ("created", c.bb)
+            if c.name() in _PASS_THROUGH and c.args and F.op_place(c.args[0]):
+                l = F.op_place(c.args[0])["l"]
+                continue
+            return None
+        rv = d[3]
+        if rv["rv"] in ("use", "cast"):
+            src = F.op_place(rv["op"])
+        elif rv["rv"] in ("ref", "rawptr"):
+            src = rv["pl"]
+        else:
+            return None
+        if src is None:
+            return None
+        l = src["l"]
+    return None
+
+
+def _row_loops(b):
+    """loops of b that iterate over solution rows (items are HashMap<String, u32>)"""
+    out = []
+    for h, body in b.loops():
+        for c in b.calls():
+            if c.bb in body and c.name() == "next" and c.args and F.op_place(c.args[0]):
+                ty = b.local_ty(F.op_place(c.args[0])["l"])
+                if "HashMap<alloc::string::String, u32>" in ty and ("IntoIter" in ty or "Iter<" in ty or "Drain" in ty):
+                    out.append((h, body))
+                    break
+    return out
+
+
+def seen_scope(R, rid):
+    """the seen-set of a scan lives for one incoming row"""
+    prog = R.prog
+    R.rule(rid, "one seen-set per incoming row: the set that suppresses a triple held by several source graphs of the merged default graph is "
+                "created for each incoming solution - inside the function that scans for one row, or inside the caller's loop over the "
+                "incoming rows - never before that loop. A set that survives a row drops, for every later row, each triple an earlier row has "
+                "already examined: a bind or star join (all left rows through one scan call) loses solutions that a hash join (one unit row) keeps, "
+                "so the answer depends on the plan the optimizer picks")
+    n = 0
+    for b, c in sorted(_dedup_sites(prog), key=lambda x: (x[0].key, x[1].ln or 0)):
+        if b.is_closure or not b.file.endswith("execution/engine.rs"):
+            continue
+        rty = b.local_ty((F.op_place(c.args[0]) or {"l": 0})["l"])
+        if "(u32, u32, u32)" not in rty:
+            continue
+        n += 1
+        R.saw(b)
+        chain = [b.short]
+        work = [(b, c.args[0], c.bb)]
+        verdicts = []
+        seen_sites = set()
+        while work:
+            x, op, at = work.pop()
+            cr = _creation_of(x, op)
+            rl = [(h, body) for h, body in _row_loops(x) if at in body]
+            if cr is None:
+                verdicts.append((x, at, False, "the set's origin in %s is not understood" % x.short))
+            elif cr[0] in ("created", "created-multi"):
+                bbs = [cr[1]] if cr[0] == "created" else cr[1]
+                bad = [h for h, body in rl if not all(k in body for k in bbs)]
+                verdicts.append((x, at, not bad, "created in %s %s" % (x.short, "inside the loop over the incoming rows" if rl and not bad else
+                                                                       ("before the loop over the incoming rows" if bad else "(per call)"))))
+            else:
+                callers = [(y, cc) for y in prog.bodies.values() if y.crate == "kolibrie" and "::tests::" not in y.key for cc in y.calls() if cc.key == x.key]
+                if not callers:
+                    verdicts.append((x, at, False, "%s takes the set as a parameter and has no caller" % x.short))
+                for y, cc in callers:
+                    if (y.key, cc.bb) in seen_sites or cr[1] - 1 >= len(cc.args):
+                        continue
+                    seen_sites.add((y.key, cc.bb))
+                    chain.append(y.short)
+                    work.append((y, cc.args[cr[1] - 1], cc.bb))
+        ok = bool(verdicts) and all(v[2] for v in verdicts)
+        R.ob(rid, "per-row:%s" % b.short, "the seen-set of %s is created once per incoming row (%s)" % (b.short, "; ".join(v[3] for v in verdicts)), ok,
+             where=b.where(c.ln), detail=None if ok else "with `FROM <g1> FROM <g2>` and a many-to-one join, the second left row no longer finds the triple the "
+             "first one matched")
+    R.floor(rid, "seen-sets of the scan layer", n, 1)
+
+
+def r21(R):
+    seen_scope(R, "C01-R21")
